@@ -605,6 +605,14 @@ def configs():
     C["git-ignored-dir-name-not-utf8"] = ({".gitignore": "b*/\n", "b\udce9ta/out.o": b"\x00"}, [], None)
     C["git-ignored-name-control-characters"] = (dict(ign, **{"new\nline.ign": "x\n", "tab\there.ign": "x\n", 'q"uote\\.ign': "x\n"}), [], None)
     C["git-ignored-name-long"] = (dict(ign, **{"n" * 250 + ".ign": "x\n"}), [], None)
+    # .gitmodules is a file of the project like any other: whatever it holds, the commands end normally
+    sub = '[submodule "lib"]\n'
+    for name, text in (("ok", sub + "\tpath = lib\n\turl = https://example.com/lib.git\n"), ("no-path", sub + "\turl = u\n"),
+                       ("empty-path", sub + "\tpath = \n"), ("path-without-value", sub + "\tpath\n"), ("path-twice", sub + "\tpath = a\n\tpath = b\n"),
+                       ("path-not-utf8", sub.encode() + b"\tpath = caf\xe9\n"), ("path-with-newline", sub + '\tpath = "a\\nb"\n'),
+                       ("garbage", "[[[ not a configuration file\n"), ("nul", sub.encode() + b"\tpath = a\x00b\n"), ("empty", ""),
+                       ("other-key-named-path", '[other "x.path"]\n\tfoo.path\n[submodule "a"]\n\tzz.path = 1\n')):
+        C["git-gitmodules-" + name] = ({".gitmodules": text, "lib/x.py": HDR}, [], None)
     return C
 
 
@@ -649,7 +657,7 @@ class CliStream(Stream):
     rule = ("%d project configurations (no / valid / syntactically broken / undecodable / NUL / 1 MB / 3000-deep / wrongly shaped / "
             "unparseable-expression REUSE.toml, nested REUSE.toml, the same for .reuse/dep5, dep5 + REUSE.toml conflicts, duplicate licence "
             "files, licence texts with arbitrary bytes, Git repositories with ignored files / directories whose names are not UTF-8, hold "
-            "control characters or are 250 bytes long) x %d sub-commands of the real CLI (CliRunner) over a tree with Latin-1, NUL, binary and bad-expression files: "
+            "control characters or are 250 bytes long, Git repositories with well-formed and malformed .gitmodules files) x %d sub-commands of the real CLI (CliRunner) over a tree with Latin-1, NUL, binary and bad-expression files: "
             "observed = loaded | exit:2 + configuration files named | traceback:<Class>, compared with the model's loadProject/clickEnd "
             "fed the generator's description of each file; oracle from the property text" % (len(configs()), len(COMMANDS)))
 
